@@ -109,11 +109,15 @@ Transparent bytes_eqb.
 Lemma jget_id m v : jget k_id ((k_id, v) :: m) = Some v.
 Proof. reflexivity. Qed.
 
+Lemma getj_stored it : it_jpath it = [] -> forall names,
+  map (fun n => tjson (getj n it)) names = map (fun n => tjson (getv n (it_fields it))) names.
+Proof. intros H names. apply map_ext. intros n. unfold getj. rewrite H. reflexivity. Qed.
+
 Lemma json_item_proj r it :
-  NoDup (sr_names r) -> covers (it_fields it) (sr_names r) ->
+  NoDup (sr_names r) -> covers (it_fields it) (sr_names r) -> it_jpath it = [] ->
   proj_jitem (sr_out r) (eff_names r) (json_item r it) = Some (abs_item r it).
 Proof.
-  intros Hnd Hc. unfold json_item, proj_jitem, abs_item, eff_names.
+  intros Hnd Hc Hj. unfold json_item, proj_jitem, abs_item, eff_names. rewrite (getj_stored it Hj).
   destruct (sr_out r) eqn:Eo.
   - unfold fields_output. rewrite Eo. destruct (show_dist it); reflexivity.
   - (* count *)
@@ -139,11 +143,11 @@ Theorem modes_agree_proof : forall r, wf_res r ->
   proj_json (sr_out r) (render_json r) = Some (abs_of r) /\
   proj_resp (sr_out r) (render_resp r) = Some (abs_of r).
 Proof.
-  intros r [Hnd Hcov]. rewrite Forall_forall in Hcov. split.
+  intros r [[Hnd Hcov] Hjp]. rewrite Forall_forall in Hcov. rewrite Forall_forall in Hjp. split.
   - (* JSON *)
     assert (Hitems : map_opt (proj_jitem (sr_out r) (eff_names r)) (map (json_item r) (sr_items r)) =
                      Some (map (abs_item r) (sr_items r))).
-    { apply map_opt_map. intros it Hin. apply json_item_proj; [exact Hnd | apply Hcov; exact Hin]. }
+    { apply map_opt_map. intros it Hin. apply json_item_proj; [exact Hnd | apply Hcov; exact Hin | apply Hjp; exact Hin]. }
     unfold render_json, proj_json, abs_of.
     unfold eff_names in Hitems.
     destruct (sr_out r) eqn:Eo.
@@ -171,7 +175,7 @@ Qed.
 
 Definition zero_dist_result : scanres :=
   {| sr_out := OIds; sr_nofields := false; sr_names := [];
-     sr_items := [ {| it_id := [97]; it_obj := TTok [123; 125]; it_fields := []; it_distout := true;
+     sr_items := [ {| it_id := [97]; it_obj := TTok [123; 125]; it_fields := []; it_jpath := []; it_distout := true;
                       it_dist := [48]; it_dist_pos := false |} ];
      sr_count := 1; sr_cursor := 0 |}.
 
@@ -181,7 +185,7 @@ Lemma zero_distance_kept :
   proj_json OIds (render_json zero_dist_result) = Some (abs_of zero_dist_result) /\
   proj_resp OIds (render_resp zero_dist_result) = Some (abs_of zero_dist_result).
 Proof.
-  split; [split; [constructor | repeat constructor]|]. split; [reflexivity|].
+  split; [split; [split; [constructor | repeat constructor] | repeat constructor]|]. split; [reflexivity|].
   split; vm_compute; reflexivity.
 Qed.
 
@@ -194,6 +198,39 @@ Definition render_json_dropzero (r : scanres) : jval :=
 Lemma dropzero_refuted :
   exists r, wf_res r /\ proj_json (sr_out r) (render_json_dropzero r) <> proj_resp (sr_out r) (render_resp r).
 Proof.
-  exists zero_dist_result. split; [split; [constructor | repeat constructor]|].
+  exists zero_dist_result. split; [split; [split; [constructor | repeat constructor] | repeat constructor]|].
   vm_compute. discriminate.
+Qed.
+
+(* Open finding C17-scan-json-path-field: the JSON arm of writeFilled fills the positional "fields"
+   array with opts.obj.Fields().Get(name), and List.Get answers a dotted name j.p from inside a
+   JSON-valued field j; the RESP arm lists the stored fields.  With
+     SET fleet b FIELD props.speed 5 POINT 1 1 ; SET fleet truck1 FIELD props {"speed":7} POINT 2 2
+   SCAN fleet OBJECTS tells a JSON client that truck1 has props.speed = 7, and a RESP client that it
+   has no such field. *)
+Definition t5 : tval := TTok [53].
+Definition t7 : tval := TTok [55].
+Definition n_props : bytes := [112; 114; 111; 112; 115].
+Definition n_props_speed : bytes := [112; 114; 111; 112; 115; 46; 115; 112; 101; 101; 100].
+Definition v_props : tval := TTok [123; 34; 115; 112; 101; 101; 100; 34; 58; 55; 125].
+Definition json_path_result : scanres :=
+  {| sr_out := OObjects; sr_nofields := false; sr_names := [n_props; n_props_speed];
+     sr_items := [ {| it_id := [98]; it_obj := TTok [123; 125]; it_fields := [(n_props_speed, t5)]; it_jpath := [];
+                      it_distout := false; it_dist := []; it_dist_pos := false |};
+                   {| it_id := [116]; it_obj := TTok [123; 125]; it_fields := [(n_props, v_props)];
+                      it_jpath := [(n_props_speed, t7)];
+                      it_distout := false; it_dist := []; it_dist_pos := false |} ];
+     sr_count := 2; sr_cursor := 0 |}.
+
+Lemma json_path_field_refuted :
+  wf_names json_path_result /\
+  proj_json (sr_out json_path_result) (render_json json_path_result) <>
+  proj_resp (sr_out json_path_result) (render_resp json_path_result).
+Proof.
+  split.
+  - split.
+    + repeat constructor; cbn; intuition discriminate.
+    + constructor; [apply cov_skip, cov_take, cov_nil|].
+      constructor; [apply cov_take, cov_nil | constructor].
+  - vm_compute. discriminate.
 Qed.
